@@ -77,10 +77,22 @@ def gen_lineage_model(r, absorb=False, allow_death=True):
         splitter["options"] = {"perfect": [s for s in species if r.random() < 0.3]}
         splitter["options"]["duplicate"] = [s for s in species if s not in splitter["options"]["perfect"] and r.random() < 0.3]
         splitter["noise"] = r.choice([0.0, 0.1, 0.3])
+    division2 = None
+    splitter2 = None
+    if dk == "rule_time" and "noise" not in division and sk == "lineage" and r.random() < 0.5:
+        # a second division mechanism (an event) with its own, different splitter
+        division2 = {"kind": "event", "k": netgen.nice(r.uniform(1.0, 3.0) / horizon)}
+        opts2 = {s: r.choice(MODES) for s in species}
+        for s in species:      # make it differ from the rule's splitter on every species
+            m1 = splitter["options"].get(s, splitter["options"].get("default", "binomial"))
+            opts2[s] = r.choice([x for x in MODES if x != m1])
+        opts2["volume"] = r.choice(["binomial", "perfect"])
+        splitter2 = {"kind": "lineage", "options": opts2, "noise": r.choice([0.0, 0.3])}
     # a duplicated volume never shrinks: with a volume-based division criterion the daughters would divide at birth for ever
     if sk == "lineage" and splitter["options"].get("volume") == "duplicate" and dk in ("rule_volume", "rule_general", "rule_deltav"):
         splitter["options"]["volume"] = "binomial"
-    return {"model": m, "growth": growth, "division": division, "death": death, "splitter": splitter, "dt": dt, "npts": npts}
+    return {"model": m, "growth": growth, "division": division, "death": death, "splitter": splitter, "dt": dt, "npts": npts,
+            "division2": division2, "splitter2": splitter2}
 
 
 def build_splitter(lm, M):
@@ -150,6 +162,9 @@ def build_lineage_model(lm, with_division=True):
         else:
             # (a volume-independent rate: a mass-action constant would scale with the ever-growing duplicated volume)
             M.create_division_event("division", {}, "general", {"rate": repr(dv["k"])}, vsplit)
+        if lm.get("division2"):
+            vsplit2 = build_splitter(dict(lm, splitter=lm["splitter2"]), M)
+            M.create_division_event("division", {}, "general", {"rate": repr(lm["division2"]["k"])}, vsplit2)
     de = lm.get("death")
     if de:
         if de["kind"] == "event":
@@ -411,11 +426,40 @@ def lineage_oracle(case, out, stats):
                     bad("daughter_does_not_start_at_division_time", mother=i, daughter=d, mother_end=float(t[-1]),
                         daughter_start=float(cells[d]["time"][0]))
                     return viols
-            ok = check_partition(lm, model["species"], Xp[-1], float(V[-1]), cells[d1]["data"][0][perm],
-                                 cells[d2]["data"][0][perm], float(cells[d1]["vol"][0]), float(cells[d2]["vol"][0]), bad)
-            if not ok:
-                viols[-1]["detail"]["mother"] = i
-                return viols
+            args = (model["species"], Xp[-1], float(V[-1]), cells[d1]["data"][0][perm], cells[d2]["data"][0][perm],
+                    float(cells[d1]["vol"][0]), float(cells[d2]["vol"][0]))
+            if lm.get("division2"):
+                # which mechanism fired? the time rule fires as soon as the cell's age reaches the threshold (the detection
+                # instant is one step before the recorded last row); before that only the event can have divided the cell
+                th = lm["division"]["threshold"]
+                age_last = float(t[-1] - t[0])
+                lm_rule, lm_event = lm, dict(lm, splitter=lm["splitter2"])
+                if age_last < th - 1e-9:
+                    cands, trig = [lm_event], "event"
+                elif age_last - dt >= th - 1e-9 and n >= 2:
+                    cands, trig = [lm_rule], "rule"
+                else:
+                    cands, trig = [lm_rule, lm_event], "ambiguous"
+                stats["division_trigger_" + trig] = stats.get("division_trigger_" + trig, 0) + 1
+                problems = []
+                ok = False
+                for cand in cands:
+                    tmp = []
+                    if check_partition(cand, *args, lambda cls, **d: tmp.append((cls, d))):
+                        ok = True
+                        break
+                    problems.append(tmp)
+                if not ok:
+                    cls, d = problems[0][0]
+                    d = dict(d)
+                    d["mother_count"] = d.pop("mother", None)
+                    bad(cls, mother_cell=i, trigger=trig, **d)
+                    return viols
+            else:
+                ok = check_partition(lm, *args, bad)
+                if not ok:
+                    viols[-1]["detail"]["mother"] = i
+                    return viols
     stats["divisions"] = stats.get("divisions", 0) + ndiv
     # traced binomial draws: every B record must carry a probability equal to some daughter's volume fraction (protocol-free form)
     return viols
